@@ -62,7 +62,10 @@ def zoo_clean() -> dict:
                      "post": {"operationId": "create leaf", "tags": ["leaves"], "requestBody": {"required": True, "content": {"application/json": {"schema": r("Leaf")}, "application/x-www-form-urlencoded": {"schema": r("Leaf")},
                                                                                                                                "multipart/form-data": {"schema": {"type": "object", "required": ["file"], "properties": {
                                                                                                                                    "file": {"type": "string", "format": "binary"}, "files": {"type": "array", "items": {"type": "string", "format": "binary"}},
-                                                                                                                                   "meta": r("Leaf"), "count": I, "when": {"type": "string", "format": "date"}, "tags": {"type": "array", "items": S}}}}}},
+                                                                                                                                   "meta": r("Leaf"), "count": I, "when": {"type": "string", "format": "date"}, "tags": {"type": "array", "items": S},
+                                                                                                                                   # classes declared INLINE inside an inline multipart body
+                                                                                                                                   "kind": {"type": "string", "enum": ["photo", "scan"]}, "geo": {"type": "object", "properties": {"lat": {"type": "number"}}},
+                                                                                                                                   "parts": {"type": "array", "items": {"type": "object", "properties": {"n": I}}}}}}}},
                               "responses": {"201": ok, "400": {"description": "bad", "content": {"application/problem+json": {"schema": r("Annotated")}}}}}},
         "/leaves/{leaf-id}/sub/{sub_id}": {"get": {"operationId": "getSub", "tags": ["leaves"], "parameters": [{"name": "sub_id", "in": "path", "required": True, "schema": {"type": "string", "enum": ["a", "b"]}},
                                                                                                                {"name": "leaf-id", "in": "path", "required": True, "schema": {"type": "string", "format": "uuid"}}],
